@@ -262,6 +262,9 @@ def replay_units(behs, tmpdir, seed):
         # cell (a, w) holds 10^(p0 + a) in unit u0
         s.flux = np.array([[10.0 ** (p0 + a) for _ in range(nw)] for a in range(na)]) * u.Unit(UNIT_STR[u0])
         s.error = s.flux * 0.1
+        zero_cell = (bi % 4 == 2)
+        if zero_cell:
+            s.flux[0, 0] = 0.0 * s.flux.unit       # a stored flux of exactly zero (as model SEDs have at short wavelengths) with a non-zero error
         if bi % 3 == 1:
             # the error column may carry another unit of the same family than the flux column (SED.write stores each with its own)
             twin = {'mJy': 'Jy', 'Jy': 'mJy', 'erg/cm2/s': 'W/m2', 'W/m2': 'erg/cm2/s'}.get(u0)
@@ -298,6 +301,10 @@ def replay_units(behs, tmpdir, seed):
             for a in range(na):
                 for w in range(nw):
                     want = convert_exp(u0, h['to'], p0 + a, knu[w], j)
+                    if zero_cell and a == 0 and got[a, w] == 0.0 and (knu[w] == ks[0] or True) and abs(gote[a, w] / 10.0 ** (want - 1) - 1.0) <= tol:
+                        zc = [(a_, w_) for a_ in range(na) for w_ in range(nw) if got[a_, w_] == 0.0]
+                        if zc == [(a, w)]:
+                            continue          # the one zero cell: flux stays 0 in every unit, its error converts like any other
                     if not abs(got[a, w] / 10.0 ** want - 1.0) <= tol:
                         bad = 'cell (aperture %d, nu=1e%d Hz): %r %s, spec 1e%d' % (a, knu[w], got[a, w], h['to'], want)
                         break
